@@ -12,7 +12,7 @@
       "the body atoms of a rule with head in S are in S", true for every rule that comes from a clause).
    3. `prob_gen_relevant`, `prob_gen_restrict` : prob_gen of the restricted program = prob_gen of the program. *)
 From Coq Require Import NArith QArith List Bool Permutation Lia.
-From PL.Sem Require Import Program Sem SemBasics PermProofs StratProofs FuelProofs RelProofs.
+From PL.Sem Require Import Program Sem SemFast SemBasics PermProofs StratProofs FuelProofs RelProofs.
 Import ListNotations.
 
 Section Loc.
@@ -188,6 +188,23 @@ Proof.
 Qed.
 End Sym.
 
+Lemma filter_kr_idem R : filter kr (filter kr R) = filter kr R.
+Proof.
+  induction R as [|r R IH]; simpl; [reflexivity|]. destruct (kr r) eqn:E; simpl; [rewrite E, IH|]; auto.
+Qed.
+
+Corollary wfm_subprogram R U : Forall closed_rule R ->
+  forall T Uk T' Uk',
+  wfm A eqb R U = Some (T, Uk) -> wfm A eqb (filter kr R) U = Some (T', Uk') ->
+  forall a, inS a = true -> (In a T <-> In a T') /\ (In a Uk <-> In a Uk').
+Proof.
+  intros Hcl. apply (wfm_local R (filter kr R) U U).
+  - symmetry. apply filter_kr_idem.
+  - exact Hcl.
+  - apply Forall_forall. intros r Hr. apply filter_In in Hr. apply (proj1 (Forall_forall _ _) Hcl r). tauto.
+  - intros; tauto.
+Qed.
+
 (* ------------------------------------------------------------------ indicators *)
 Definition agree (T T' : list A) : Prop := forall a, inS a = true -> (In a T <-> In a T').
 
@@ -216,6 +233,27 @@ Proof.
   destruct (wfm A eqb R' U') as [[T' Uk']|] eqn:E'; [|exfalso; apply (wfm_total A eqb eqb_spec R' U' E')].
   simpl. f_equal. apply Hchk. intros a Ha.
   apply (proj1 (wfm_local R R' U U' HR Hcl Hcl' HU T Uk T' Uk' E E' a Ha)).
+Qed.
+
+Lemma ind_undef_local R R' U U' :
+  filter kr R = filter kr R' -> Forall closed_rule R -> Forall closed_rule R' ->
+  (forall a, inS a = true -> (In a U <-> In a U')) ->
+  ind_undef A eqb U inS R = ind_undef A eqb U' inS R'.
+Proof.
+  intros HR Hcl Hcl' HU. unfold ind_undef.
+  destruct (wfm A eqb R U) as [[T Uk]|] eqn:E; [|exfalso; apply (wfm_total A eqb eqb_spec R U E)].
+  destruct (wfm A eqb R' U') as [[T' Uk']|] eqn:E'; [|exfalso; apply (wfm_total A eqb eqb_spec R' U' E')].
+  simpl. f_equal. f_equal.
+  pose proof (wfm_local R R' U U' HR Hcl Hcl' HU T Uk T' Uk' E E') as L.
+  destruct (subset (filter inS Uk) T) eqn:E1, (subset (filter inS Uk') T') eqn:E2; try reflexivity; exfalso.
+  - apply (subset_spec A eqb eqb_spec) in E1.
+    assert (subset (filter inS Uk') T' = true) as K; [|congruence].
+    apply (subset_spec A eqb eqb_spec). intros a Ha. apply filter_In in Ha. destruct Ha as [Ha Hs].
+    apply (proj1 (L a Hs)). apply E1. apply filter_In. split; [|exact Hs]. apply (proj2 (L a Hs)). exact Ha.
+  - apply (subset_spec A eqb eqb_spec) in E2.
+    assert (subset (filter inS Uk) T = true) as K; [|congruence].
+    apply (subset_spec A eqb eqb_spec). intros a Ha. apply filter_In in Ha. destruct Ha as [Ha Hs].
+    apply (proj1 (L a Hs)). apply E2. apply filter_In. split; [|exact Hs]. apply (proj2 (L a Hs)). exact Ha.
 Qed.
 
 (* ------------------------------------------------------------------ the world sum, with an invariant on the rules *)
@@ -310,6 +348,22 @@ Proof.
     apply (proj1 (Forall_forall _ _) Hcl c Hc h Hh Hin l Hl).
 Qed.
 
+(* the probability that some atom OF S is undefined (what Sem.classify sums) is local as well *)
+Lemma wsum_ind_undef_restrict cs :
+  Forall closed_clause cs ->
+  wsum A (ind_undef A eqb (universe A eqb cs) inS) cs []
+  == wsum A (ind_undef A eqb (universe A eqb (filter keeph cs)) inS) (filter keeph cs) [].
+Proof.
+  intros Hcl. rewrite keeph_keepc.
+  apply (wsum_restrict_inv closed_rule); try constructor; try reflexivity.
+  - intros acc acc' Pa Pa' Hacc. rewrite <- keeph_keepc.
+    rewrite (ind_undef_local acc acc' (universe A eqb cs) (universe A eqb (filter keeph cs)) Hacc Pa Pa');
+      [reflexivity|].
+    intros a Ha. apply universe_restrict. exact Ha.
+  - intros c Hc h Hh Hin l Hl. simpl in *.
+    apply (proj1 (Forall_forall _ _) Hcl c Hc h Hh Hin l Hl).
+Qed.
+
 Lemma stratified_wsum_undef lvl cs U rel :
   stratified_prog A lvl cs -> wsum A (ind_undef A eqb U rel) cs [] == 0.
 Proof.
@@ -366,3 +420,131 @@ Proof.
 Qed.
 
 End Loc.
+
+(* ------------------------------------------------------------------ the computed cone *)
+Section Cone.
+Variable A : Type.
+Variable eqb : A -> A -> bool.
+Hypothesis eqb_spec : forall x y, eqb x y = true <-> x = y.
+Notation edge := (A * A * bool)%type.
+Local Open Scope nat_scope.
+
+Lemma succs_nodes (E : list edge) x y : In y (succs A eqb E x) -> In y (nodes A eqb E).
+Proof.
+  intro H. apply (succs_inv A eqb eqb_spec) in H. destruct H as [s Hs].
+  unfold nodes. apply (dedup_In A eqb eqb_spec). apply in_flat_map. exists (x, y, s). split; [exact Hs|].
+  simpl. auto.
+Qed.
+
+(* the closure iteration terminates: every round adds an atom of V (the nodes of the graph) *)
+Lemma close_iter_total (E : list edge) V : (forall x y, In y (succs A eqb E x) -> In y V) ->
+  forall fuel R, length V - cnt A eqb V R < fuel -> close_iter A eqb fuel E R <> None.
+Proof.
+  intros HV. induction fuel as [|f IH]; intros R Hm; [lia|]. simpl.
+  destruct (Sem.subset A eqb (flat_map (succs A eqb E) R) R) eqn:Es; [discriminate|].
+  destruct (subset_false_witness A eqb eqb_spec _ _ Es) as [x [Hx Hnx]].
+  apply IH.
+  assert (In x V) as HxV.
+  { apply in_flat_map in Hx. destruct Hx as [y [_ Hy]]. apply (HV y x Hy). }
+  assert (incl R (dedup A eqb (R ++ flat_map (succs A eqb E) R))) as Hi.
+  { intros z Hz. apply (dedup_In A eqb eqb_spec). apply in_or_app. left. exact Hz. }
+  assert (In x (dedup A eqb (R ++ flat_map (succs A eqb E) R))) as Hx'.
+  { apply (dedup_In A eqb eqb_spec). apply in_or_app. right. exact Hx. }
+  pose proof (cnt_lt A eqb eqb_spec V R _ x Hi HxV Hx' Hnx) as K.
+  pose proof (cnt_le A eqb V (dedup A eqb (R ++ flat_map (succs A eqb E) R))). lia.
+Qed.
+
+Theorem cone_total (E : list edge) goals : cone A eqb E goals <> None.
+Proof.
+  unfold cone. apply (close_iter_total E (nodes A eqb E)); [apply succs_nodes|].
+  pose proof (cnt_le A eqb (nodes A eqb E) (dedup A eqb goals)). lia.
+Qed.
+
+Theorem restrict_total cs goals : restrict A eqb cs goals <> None.
+Proof.
+  unfold restrict. destruct (cone A eqb (edges A cs) goals) eqn:E; [discriminate|].
+  exfalso. apply (cone_total _ _ E).
+Qed.
+
+Lemma cone_spec (E : list edge) goals C : cone A eqb E goals = Some C ->
+  incl goals C /\ (forall x, In x C -> incl (succs A eqb E x) C).
+Proof.
+  unfold cone. intro H. apply (close_iter_spec A eqb eqb_spec) in H. destruct H as [H1 H2].
+  split; [|exact H2]. intros x Hx. apply H1. apply (dedup_In A eqb eqb_spec). exact Hx.
+Qed.
+
+Lemma cone_closed cs goals C : cone A eqb (edges A cs) goals = Some C ->
+  Forall (closed_clause A (fun a => mem A eqb a C)) cs.
+Proof.
+  intro H. apply cone_spec in H. destruct H as [_ H2]. apply Forall_forall.
+  intros c Hc h Hh Hin l Hl. apply (mem_spec A eqb eqb_spec) in Hin. apply (mem_spec A eqb eqb_spec).
+  apply (H2 h Hin). pose proof (edges_In A cs c h l Hc Hh Hl) as He. apply (succs_In A eqb eqb_spec _ _ _ _ He).
+Qed.
+
+(* C08_relevant on a generic atom type *)
+Theorem prob_gen_restrict cs goals cs' ev q :
+  restrict A eqb cs goals = Some cs' -> In q goals -> (forall e, In e ev -> In (fst e) goals) ->
+  neg_cycle_free A eqb cs = Some true ->
+  prob_gen A eqb cs' ev q = prob_gen A eqb cs ev q.
+Proof.
+  unfold restrict. destruct (cone A eqb (edges A cs) goals) as [C|] eqn:EC; [|discriminate].
+  intros H Hq Hev Hncf. inversion H; subst cs'. clear H.
+  pose proof (cone_closed cs goals C EC) as Hcl. destruct (cone_spec _ _ _ EC) as [Hg _].
+  apply (prob_gen_relevant A eqb eqb_spec (fun a => mem A eqb a C) cs ev q Hncf Hcl).
+  - apply (mem_spec A eqb eqb_spec). apply Hg. exact Hq.
+  - intros e He. apply (mem_spec A eqb eqb_spec). apply Hg. apply Hev. exact He.
+Qed.
+
+(* without any hypothesis on negation: the unnormalised masses P(chk) for checks that only look at the cone,
+   and the mass of the worlds where an atom of the cone is undefined, are those of the restricted program *)
+Theorem masses_restrict cs goals C cs' :
+  cone A eqb (edges A cs) goals = Some C -> restrict A eqb cs goals = Some cs' ->
+  (forall chk, (forall T T', agree A (fun a => mem A eqb a C) T T' -> chk T = chk T') ->
+     (wsum A (ind_true A eqb (universe A eqb cs) chk) cs []
+      == wsum A (ind_true A eqb (universe A eqb cs') chk) cs' [])%Q) /\
+  (wsum A (ind_undef A eqb (universe A eqb cs) (fun a => mem A eqb a C)) cs []
+   == wsum A (ind_undef A eqb (universe A eqb cs') (fun a => mem A eqb a C)) cs' [])%Q.
+Proof.
+  unfold restrict. intros EC. rewrite EC. intro H. inversion H; subst cs'. clear H.
+  pose proof (cone_closed cs goals C EC) as Hcl. split.
+  - intros chk Hchk. apply (wsum_ind_true_restrict A eqb eqb_spec (fun a => mem A eqb a C) cs chk Hcl Hchk).
+  - apply (wsum_ind_undef_restrict A eqb eqb_spec (fun a => mem A eqb a C) cs Hcl).
+Qed.
+
+(* more roots: two goal sets that both contain the query and the evidence atoms give restricted programs
+   with the same value *)
+Theorem prob_gen_restrict_roots cs goals goals' cs1 cs2 ev q :
+  restrict A eqb cs goals = Some cs1 -> restrict A eqb cs goals' = Some cs2 ->
+  In q goals -> In q goals' ->
+  (forall e, In e ev -> In (fst e) goals) -> (forall e, In e ev -> In (fst e) goals') ->
+  neg_cycle_free A eqb cs = Some true ->
+  prob_gen A eqb cs1 ev q = prob_gen A eqb cs2 ev q.
+Proof.
+  intros H1 H2 Hq Hq' He He' Hn.
+  rewrite (prob_gen_restrict cs goals cs1 ev q H1 Hq He Hn).
+  rewrite (prob_gen_restrict cs goals' cs2 ev q H2 Hq' He' Hn). reflexivity.
+Qed.
+End Cone.
+
+(* ------------------------------------------------------------------ first-order programs *)
+Theorem relevant_program P cs' q :
+  restrict gatom gatom_eqb (g_clauses (ground P)) (goals (ground P)) = Some cs' ->
+  In q (g_queries (ground P)) ->
+  neg_cycle_free gatom gatom_eqb (g_clauses (ground P)) = Some true ->
+  gprob (mkG cs' (g_queries (ground P)) (g_evid (ground P))) q = prob P q.
+Proof.
+  intros H Hq Hn. unfold prob, gprob. simpl.
+  apply (prob_gen_restrict gatom gatom_eqb gatom_eqb_spec _ (goals (ground P)) cs' _ q H); [| |exact Hn].
+  - unfold goals. apply in_or_app. left. exact Hq.
+  - intros e He. unfold goals. apply in_or_app. right. apply in_map. exact He.
+Qed.
+
+Theorem more_roots_relevant P a cs' q :
+  incl (consts_atom a) (domain P) ->
+  restrict gatom gatom_eqb (g_clauses (ground (P ++ [SQuery a]))) (goals (ground (P ++ [SQuery a]))) = Some cs' ->
+  In q (g_queries (ground (P ++ [SQuery a]))) ->
+  neg_cycle_free gatom gatom_eqb (g_clauses (ground (P ++ [SQuery a]))) = Some true ->
+  gprob (mkG cs' (g_queries (ground (P ++ [SQuery a]))) (g_evid (ground (P ++ [SQuery a])))) q = prob P q.
+Proof.
+  intros Hd H Hq Hn. rewrite (relevant_program _ cs' q H Hq Hn). apply prob_add_query. exact Hd.
+Qed.
